@@ -25,23 +25,20 @@ fn driver() -> Arc<Driver> {
     })
 }
 
-/// one vehicle (= one actor) per entry of `groups`; the group key of an actor is its vehicle's profile index
-fn make_fleet(groups: &[usize], closed: bool) -> Fleet {
-    let vehicles = groups
+/// one vehicle per entry `(group, detail variants)`; Fleet::new creates one actor per detail (equal variants give
+/// IDENTICAL details: two distinct actors of the same vehicle); the group key of an actor is its vehicle's profile index
+fn make_fleet(spec: &[(usize, Vec<usize>)], closed: bool) -> Fleet {
+    let vehicles = spec
         .iter()
         .enumerate()
-        .map(|(i, &g)| {
-            let detail = VehicleDetailBuilder::default().set_start_location(START_TAG);
-            let detail = if closed { detail.set_end_location(END_TAG) } else { detail };
-            Arc::new(
-                VehicleBuilder::default()
-                    .id(&format!("v{i}"))
-                    .set_profile_idx(g)
-                    .add_detail(detail.build().unwrap())
-                    .capacity(SingleDimLoad::new(1))
-                    .build()
-                    .unwrap(),
-            )
+        .map(|(i, (g, variants))| {
+            let mut b = VehicleBuilder::default().id(&format!("v{i}")).set_profile_idx(*g).capacity(SingleDimLoad::new(1));
+            for &d in variants {
+                let detail = VehicleDetailBuilder::default().set_start_location(START_TAG).set_start_time(d as f64);
+                let detail = if closed { detail.set_end_location(END_TAG) } else { detail };
+                b = b.add_detail(detail.build().unwrap());
+            }
+            Arc::new(b.build().unwrap())
         })
         .collect::<Vec<_>>();
     Fleet::new(vec![driver()], vehicles, |_| |actor: &Actor| actor.vehicle.profile.index)
@@ -72,6 +69,9 @@ fn make_jobs(spec: &[i64]) -> JobTable {
             jobs.push(Job::Multi(multi));
         }
     }
+    // sub-jobs of the multi jobs wrapped as standalone jobs: they are NOT jobs of a tour holding the multi
+    let subs: Vec<Job> = singles.iter().filter(|ss| ss.len() >= 2).flat_map(|ss| ss.iter().map(|s| Job::Single(s.clone()))).collect();
+    jobs.extend(subs);
     JobTable { jobs, singles }
 }
 
@@ -151,6 +151,21 @@ fn tour_step(table: &JobTable, slots: &mut Vec<RouteContext>, op: &Value) -> (us
             let job = slots[k].route_mut().tour.remove_activity_at(idx);
             (job_enc(table, Some(job)) - 1, k)
         }
+        "q" => {
+            let (what, j) = (usize_of(&op[2]), usize_of(&op[3]));
+            let tour = &slots[k].route().tour;
+            let job = &table.jobs[j];
+            let ret = match what {
+                0 => tour.index(job).map(|i| i + 1).unwrap_or(0),
+                1 => tour.index_last(job).map(|i| i + 1).unwrap_or(0),
+                2 => tour.job_activities(job).count(),
+                _ => {
+                    assert!(tour.contains(job) == tour.has_job(job), "contains and has_job disagree");
+                    tour.contains(job) as usize
+                }
+            };
+            (ret, k)
+        }
         "copy" => {
             let mode = usize_of(&op[2]);
             let copy = match mode {
@@ -176,7 +191,7 @@ fn tour_step(table: &JobTable, slots: &mut Vec<RouteContext>, op: &Value) -> (us
 fn run_tour(case: &Value) -> Value {
     let closed = case["closed"].as_bool().unwrap();
     let table = make_jobs(&i64s_of(&case["jobs"]));
-    let fleet = make_fleet(&[0], closed);
+    let fleet = make_fleet(&[(0, vec![0])], closed);
     let mut slots = vec![RouteContext::new(fleet.actors[0].clone())];
     let mut steps = vec![];
     let mut panic: Option<String> = None;
@@ -278,8 +293,16 @@ fn run_reg(case: &Value) -> Value {
     let groups: Vec<usize> = i64s_of(&case["groups"]).iter().map(|&g| g as usize).collect();
     let is_ctx = case["ctx"].as_bool().unwrap();
     let closed = case["closed"].as_bool().unwrap_or(true);
-    let fleet = make_fleet(&groups, closed);
-    let foreign = make_fleet(&[0, 1, 0], closed);
+    let spec: Vec<(usize, Vec<usize>)> = match case.get("fleet") {
+        Some(Value::Array(vs)) => vs
+            .iter()
+            .map(|v| (usize_of(&v[0]), i64s_of(&v[1]).iter().map(|&d| d as usize).collect()))
+            .collect(),
+        _ => groups.iter().map(|&g| (g, vec![0])).collect(),
+    };
+    let fleet = make_fleet(&spec, closed);
+    assert!(fleet.actors.len() == groups.len(), "fleet spec and groups disagree");
+    let foreign = make_fleet(&[(0, vec![0]), (1, vec![0]), (0, vec![0])], closed);
     let actors = Actors { all: fleet.actors.iter().chain(foreign.actors.iter()).cloned().collect() };
     let random = Arc::new(ScriptRandom { mode: Mutex::new(0), calls: Mutex::new(vec![]) });
     let registry = Registry::new(&fleet, random.clone());
